@@ -533,7 +533,7 @@ static void run_case(uint64_t idx, vr::Ctx& ctx)
     stack.push_back({});
     try
     {
-        while (!stack.empty() && ctx.case_violations < 4 && execs < 4000)
+        while (!stack.empty() && ctx.case_violations < 4 && execs < 4000 && !ctx.stopping())
         {
             auto prefix = stack.back();
             stack.pop_back();
@@ -565,9 +565,11 @@ static void run_case(uint64_t idx, vr::Ctx& ctx)
         ctx.violation("c15:harness:" + e.what.substr(0, 50), "{\"scenario\":" + vr::jstr(sc.str()) + "}");
         _exit(77);
     }
+    if (!stack.empty() && ctx.case_violations == 0)
+        ctx.count("incomplete_cases", 1); // cap or deadline: the scenario's schedule tree was not finished
     ctx.count("executions", execs);
     ctx.count("transitions", steps);
-    ctx.sample("{\"scenario\":" + vr::jstr(sc.str()) + ",\"schedules\":" + std::to_string(execs) + "}");
+    ctx.sample("{\"scenario\":" + vr::jstr(sc.str()) + ",\"schedules\":" + std::to_string(execs) + (stack.empty() ? "" : ",\"unfinished\":true") + "}");
 }
 
 int main(int argc, char** argv)
